@@ -324,6 +324,7 @@ pub fn run_v(mut cfg: VCfg) -> VOut {
         for name in ["true", "false", "pwd", "ext", "cat"] {
             install_file(&mut st, &format!("/bin/{name}"), FileSpec::Exec);
         }
+        install_file(&mut st, "/dev/null", FileSpec::Regular(Vec::new()));
         if !cfg.stdin.is_empty() {
             let f = st.file_system.get("/dev/stdin").unwrap();
             f.borrow_mut().body = FileBody::new(std::mem::take(&mut cfg.stdin));
